@@ -59,6 +59,28 @@ def generate(rng, tier):
             to = [rd(f, x + sg * rng.gauss(0, 1)) for x in frm]
             cases.append({"op": "iso", "f": f, "sigma": fb(sg), "from": [fb(x) for x in frm], "to": [fb(x) for x in to],
                           "seed": str(rng.getrandbits(64)), "kind": "extreme-d-sigma"})
+    # small-scale covariances: determinant below the machine epsilon of the scalar type (2^-23 / 2^-52) although the
+    # matrix is perfectly conditioned — nothing may clamp or floor it
+    for f, e in [("f32", -13), ("f32", -15), ("f64", -28), ("f64", -13), ("f64", -40)]:
+        for op in ["gauss2d", "diffable"]:
+            a = 2.0 ** e
+            rho = rng.choice([0.0, 0.5, -0.75])
+            cv = [a, rho * a, rho * a, a]
+            mean = [r32(rng.uniform(-1, 1)), r32(rng.uniform(-1, 1))]
+            sd = math.sqrt(a)
+            P = []
+            for _ in range(3):
+                P += [rd(f, mean[0] + sd * rng.uniform(-3, 3)), rd(f, mean[1] + sd * rng.uniform(-3, 3))]
+            cases.append({"op": op, "f": f, "mean": [fb(mean[0]), fb(mean[1])], "cov": [fb(x) for x in cv], "points": [fb(x) for x in P],
+                          "kind": "tiny-determinant"})
+    # IsotropicGaussian whose public field `std` is reassigned after construction: logp and sample must follow the field
+    for f in ["f32", "f64"]:
+        for s0, s1 in [(1.0, 0.25), (0.5, 4.0), (3.0, 3.0)]:
+            d = rng.choice([1, 3, 8])
+            frm = [rd(f, rng.uniform(-3, 3)) for _ in range(d)]
+            to = [rd(f, x + s1 * rng.gauss(0, 1)) for x in frm]
+            cases.append({"op": "iso", "f": f, "sigma": fb(rd(f, s1)), "sigma0": fb(rd(f, s0)), "from": [fb(x) for x in frm],
+                          "to": [fb(x) for x in to], "seed": str(rng.getrandbits(64)), "kind": "std-reassigned"})
     while len(cases) < n_cases:
         f = rng.choice(["f32", "f64"])
         op = rng.choice(["gauss2d", "diffable", "diffable", "rosen2", "rosennd", "iso", "iso"])
